@@ -3,6 +3,7 @@
 // under the RESOURCE oracle of this harness:
 //
 //	x K:<catalogue name> V HEX      x G:<seed>:<depth> V HEX     (answer "oracle-only")
+//	jx K:<catalogue name> V TEXTHEX jx G:<seed>:<depth> V TEXTHEX  serix.JSONDecode of a JSON text into the universe's top type
 //
 // The universe is rebuilt in the child process from its name / seed (deterministic) and cached; the call is made once
 // unmeasured (first use of a type fills the struct-field cache and reflect's type tables) and then measured.
@@ -10,6 +11,7 @@ package main
 
 import (
 	"context"
+	"encoding/json"
 	"fmt"
 	"reflect"
 	"strconv"
@@ -102,6 +104,84 @@ func genUniverse(rng *hx.Rng, tok string, values int, emit func(string, string))
 					d2 = append(d2, b[off+len(pat):]...)
 				}
 				emit(fmt.Sprintf("x %s %d %s", tok, (off+k)%2, hx.Hex(d2)), "universe:offset-sweep")
+			}
+		}
+	}
+
+	return true
+}
+
+// rawJX runs serix.JSONDecode of a text into the top type of a universe without recovering.
+func rawJX(f []string) string {
+	e := envOf(f[1])
+	dst := reflect.New(e.Top)
+	if err := e.API.JSONDecode(context.Background(), hx.UnHex(f[3]), dst.Interface(), e.Opts(f[2] == "1")...); err != nil {
+		return "err"
+	}
+
+	return "ok"
+}
+
+func execJX(f []string) string {
+	out := ""
+	if p := hx.Safely(func() { out = rawJX(f) }); p != "" {
+		return "panic"
+	}
+
+	return out
+}
+
+// the pool values that stand for the six JSON kinds
+var jxKinds = []any{nil, true, float64(7), "", []any{}, map[string]any{}}
+
+// genUniverseJSON emits the JSON requests of one universe: the JSONEncode text of a generated value as it is, and with up to
+// 12 of its nodes replaced by a value of EVERY JSON kind (plus two other pool values: syntax classes of the string parsers,
+// shapes of arrays and objects) - MapDecode/JSONDecode must answer with a value or an error for every registered target type.
+func genUniverseJSON(rng *hx.Rng, tok string, emit func(string, string)) bool {
+	var e *serixgen.Env
+	if p := hx.Safely(func() { e = envOf(tok) }); p != "" || e.Err != nil || e.Schema == nil {
+		return false
+	}
+	vg := &serixgen.VGen{Rng: rng, API: e.API}
+	var text []byte
+	var err error
+	if p := hx.Safely(func() {
+		v := vg.Gen(e.Schema)
+		text, err = e.API.JSONEncode(context.Background(), v.Interface(), e.Opts(false)...)
+	}); p != "" || err != nil || len(text) > 4096 {
+		return false
+	}
+	emit(fmt.Sprintf("jx %s %d %s", tok, rng.Intn(2), hx.Hex(text)), "universe-json:valid")
+	var tree any
+	if json.Unmarshal(text, &tree) != nil {
+		return true
+	}
+	m, ok := tree.(map[string]any)
+	if !ok {
+		return true // the top type is not written as an object: JSONDecode refuses the text as it is
+	}
+	var ps [][]any
+	paths(m, nil, &ps)
+	pl := pool()
+	for n := 0; n < 12 && len(ps) > 0; n++ {
+		k := rng.Intn(len(ps))
+		p := ps[k]
+		ps = append(ps[:k], ps[k+1:]...)
+		if len(p) == 0 {
+			continue
+		}
+		repls := append([]any(nil), jxKinds...)
+		repls = append(repls, hx.Pick(rng, pl), hx.Pick(rng, pl))
+		for _, repl := range repls {
+			t2, err := json.Marshal(replaceAt(m, p, repl, false))
+			if err != nil {
+				continue
+			}
+			emit(fmt.Sprintf("jx %s %d %s", tok, rng.Intn(2), hx.Hex(t2)), "universe-json:kind:"+kindOf(repl))
+		}
+		if rng.Chance(1, 2) {
+			if t2, err := json.Marshal(replaceAt(m, p, nil, true)); err == nil {
+				emit(fmt.Sprintf("jx %s %d %s", tok, rng.Intn(2), hx.Hex(t2)), "universe-json:delete")
 			}
 		}
 	}
